@@ -436,7 +436,29 @@ pub fn run(cfg: &Cfg) -> Report {
             }
             judge_universal(ctx, &b, o);
             let mut rng = Rng::stream(seed, 0x05_8000 + k as u64);
-            judge_subgroup_cover(ctx, &b, &mut rng, cfg.tier.pick(60, 600));
+            // split into many small work items below for parallelism; here only a few
+            judge_subgroup_cover(ctx, &b, &mut rng, 10);
+        }
+    });
+    report.absorb(ctx);
+
+    // many multi-generator, long-word subgroup covers of the larger finite groups (coincidence cascades)
+    let heavy = ["<1.1:1:1,1,1:3,5>", "<1.1:1 3:1,1,1,1:3,3,3>", "<1.1:1 3:1,1,1,1:4,3,3>", "<1.1:2:2,1 2,1 2:2,5 5>"];
+    let per = cfg.tier.pick(25, 250);
+    let ctx = crate::monitor::par_range(cfg, heavy.len() * 60, |ctx, k| {
+        let b = msym_from_text(heavy[k % heavy.len()]).unwrap();
+        let mut rng = Rng::stream(seed, 0x05_a000 + k as u64);
+        judge_subgroup_cover(ctx, &b, &mut rng, per);
+    });
+    report.absorb(ctx);
+    // rotation groups (oriented bases) at high sheet bounds
+    let rot: Vec<(&str, usize)> = vec![("<1.1:2 3:2,2,2,2:3,4,4>", cfg.tier.pick(8, 9)), ("<1.1:8:5 3 8 7,2 4 6 8,5 6 7 8:4,6 4>", 7), ("<1.1:2:2,1 2,1 2:2,5 5>", 8), ("<1.1:4:2 4,3 4,2 4:4,4>", cfg.tier.pick(7, 8))];
+    let ctx = crate::monitor::par_range(cfg, rot.len(), |ctx, k| {
+        let b = msym_from_text(rot[k].0).unwrap();
+        let ori = if b.is_oriented() { b.clone() } else { b.double_cover_by_cocycle(&|_, _| true) };
+        if ori.is_valid_symbol() && ori.is_connected() {
+            judge_covers(ctx, &ori, rot[k].1, 20_000_000);
+            ctx.count("high_sheet_bound_cover_lists");
         }
     });
     report.absorb(ctx);
